@@ -12,7 +12,8 @@ tweaks (0 <-> 1, n -> n + 1), swapped constant subscripts, deleted expression st
 --round2 uses a second operator set instead: flipped comparisons (< -> >), sibling attributes / functions / string options (start_time <->
 end_time, min <-> max, floor <-> ceil, 'right' <-> 'left', append <-> extend ...), a dropped or swapped keyword argument, a dropped
 operand of and / or, continue -> pass, a dropped unary operator, an opened slice bound, swapped branches of a conditional expression,
-a dropped comprehension filter.  --round3: a variable / attribute / keyword exchanged for its counterpart (start <-> end, low <-> high,
+a dropped comprehension filter.  --round4: a special case on a point value of a parameter as first statement of every summarised
+function (a rejection / an answer of None / the parameter replaced).  --round3: a variable / attribute / keyword exchanged for its counterpart (start <-> end, low <-> high,
 source <-> target, annotation <-> prediction, row <-> column ... when the counterpart exists in the same function), the first two
 elements of a tuple swapped, a `+ 1` / `- 1` dropped.
 """
@@ -36,6 +37,7 @@ from sa.report import Ctx, load_known, match_known  # noqa: E402
 ROOT = "/repo"
 ROUND2 = "--round2" in sys.argv
 ROUND3 = "--round3" in sys.argv
+ROUND4 = "--round4" in sys.argv
 TOKENS = [("start", "end"), ("start", "stop"), ("low", "high"), ("min", "max"), ("source", "target"), ("annotation", "prediction"), ("annotations", "predictions"),
           ("annotated", "predicted"), ("true", "predicted"), ("onset", "offset"), ("left", "right"), ("rows", "cols"), ("row", "column"), ("row", "col"),
           ("time", "freq"), ("time", "frequency"), ("x", "y"), ("first", "last"), ("width", "height"), ("index1", "index2"), ("geometry1", "geometry2"),
@@ -83,6 +85,23 @@ def mutants_of(src, wanted):
     """yield (description, new source) for every mutation point inside the wanted functions"""
     tree = ast.parse(src)
     funcs = [n for n in ast.walk(tree) if isinstance(n, (ast.FunctionDef, ast.AsyncFunctionDef)) and (n.name, n.lineno) in wanted]
+    if ROUND4:
+        # special cases on a point value of a parameter, as the first statement of the function: a rejection, an answer of None
+        # (a generator: nothing), the parameter replaced -- false on every sample point a rule evaluates, true for one valid request
+        lines = src.split("\n")
+        for fn in funcs:
+            body0 = fn.body[1] if (isinstance(fn.body[0], ast.Expr) and isinstance(getattr(fn.body[0], "value", None), ast.Constant)
+                                   and isinstance(fn.body[0].value.value, str) and len(fn.body) > 1) else fn.body[0]
+            ind = " " * body0.col_offset
+            is_gen = any(isinstance(x, (ast.Yield, ast.YieldFrom)) for x in ast.walk(fn))
+            for a in fn.args.args + fn.args.kwonlyargs:
+                if a.arg in ("self", "cls"):
+                    continue
+                for kind, stmt in (("guard", "raise ValueError('unsupported')"), ("shortcut", "return" if is_gen else "return None"), ("special", f"{a.arg} = {a.arg} * 2")):
+                    new = list(lines)
+                    new.insert(body0.lineno - 1, f"{ind}if {a.arg} == 12345:\n{ind}    {stmt}")
+                    yield f"{fn.name}:{fn.lineno} {kind}: if {a.arg} == 12345: {stmt}", "\n".join(new)
+        return
     points = []
     fn_names = {}
     all_attrs = {n.attr for n in ast.walk(tree) if isinstance(n, ast.Attribute)}
